@@ -169,6 +169,11 @@ func runC15(ctx *core.Ctx) {
 		}
 		lc := core.LocalCounts{}
 		r := cs.R
+		// results handed out earlier must stay what they were while later calls run (a returned
+		// slice or buffer backed by storage the sanitiser reuses would change under the caller)
+		var heldBytes []byte
+		var heldBuf *bytes.Buffer
+		heldWant, heldIn := "", ""
 		for i := 0; i < nIn; i++ {
 			in := env.HostileInput(r)
 			switch r.Intn(12) {
@@ -282,6 +287,14 @@ func runC15(ctx *core.Ctx) {
 					cs.Violate("C15:differs:"+entry, fmt.Sprintf("%s under schedule %v (eof with data: %v) differs from Sanitize: %q vs %q; input=%q", entry, core.Clip(fmt.Sprint(s.sizes), 80), s.eofWithData, core.Clip(got, 200), core.Clip(ref, 200), core.Clip(in, 200)), w)
 				}
 			}
+			if heldBytes != nil {
+				lc["held_results_rechecked"]++
+				if string(heldBytes) != heldWant || heldBuf.String() != heldWant {
+					cs.Violate("C15:earlier-result-changed", fmt.Sprintf("a result returned earlier changed while later calls ran: was %q, SanitizeBytes slice now %q, SanitizeReader buffer now %q", core.Clip(heldWant, 200), core.Clip(string(heldBytes), 200), core.Clip(heldBuf.String(), 200)),
+						map[string]interface{}{"policy": spec.Describe(env.Ops), "ops": env.Ops, "input": core.Show(core.Clip(heldIn, 3000))})
+				}
+			}
+			heldBytes, heldBuf, heldWant, heldIn = env.Pol.SanitizeBytes([]byte(in)), env.Pol.SanitizeReader(strings.NewReader(in)), ref, in
 			cs.Nontrivial(core.Hash(strings.Join(spec.Describe(env.Ops), ";"), in))
 			if cs.Ctx.WantSample("input") && len(in) < 200 {
 				cs.Sample("input", map[string]interface{}{"policy": spec.Describe(env.Ops), "input": core.Show(in), "output": core.Show(ref)})
@@ -372,5 +385,6 @@ func runC15(ctx *core.Ctx) {
 	ctx.Floor("chunk_boundary_inside_tag", 10000)
 	ctx.Floor("chunk_boundary_inside_entity", 1000)
 	ctx.Floor("blank_inputs", 200)
+	ctx.Floor("held_results_rechecked", 1000)
 	_ = oracle.Tokens
 }
